@@ -3620,6 +3620,9 @@ impl GraphEngine {
         properties: HashMap<String, PropertyValue>,
     ) -> Result<()> {
         Self::validate_user_properties(&properties)?;
+        // delete_node must not run between the read of the record and its write-back
+        // (the deleted node's record would be written back)
+        let _node_guard = self.node_locks[self.node_lock_index(id)].read();
         // Get old node for index maintenance
         let old_node = self.get_node(id)?;
 
@@ -3815,15 +3818,39 @@ impl GraphEngine {
         let old_edge = self.get_edge(id)?;
 
         let key = Self::edge_key(id);
-        let mut tensor = self
-            .store
-            .get(&key)
-            .map_err(|_| GraphError::EdgeNotFound(id))?;
-
         let mut changed_props: HashMap<String, PropertyValue> = HashMap::new();
 
-        for (prop_key, value) in &properties {
-            // Unindex old value if it exists
+        {
+            // The read-modify-write of the record excludes the removal of the record: an edge
+            // deleted in between would be written back, listed by neither endpoint. (The stripe
+            // is shared with the property index locks, so no index call inside this block.)
+            let _record_guard = self.adjacency_lock(&key);
+            let mut tensor = self
+                .store
+                .get(&key)
+                .map_err(|_| GraphError::EdgeNotFound(id))?;
+
+            for (prop_key, value) in &properties {
+                if value == &PropertyValue::Null {
+                    tensor.remove(prop_key);
+                } else {
+                    tensor.set(prop_key, TensorValue::Scalar(value.to_scalar()));
+                    changed_props.insert(prop_key.clone(), value.clone());
+                }
+            }
+
+            tensor.set(
+                "_updated_at",
+                TensorValue::Scalar(ScalarValue::Int(current_timestamp_millis().cast_signed())),
+            );
+
+            #[cfg(neumann_verif)]
+            tensor_store::verif_hooks::yield_point("graph.edge.update.rmw");
+            self.store.put(key, tensor)?;
+        }
+
+        // Unindex old values
+        for prop_key in properties.keys() {
             if let Some(old_value) = old_edge.properties.get(prop_key) {
                 self.index_remove(
                     IndexTarget::Edge,
@@ -3832,23 +3859,7 @@ impl GraphEngine {
                     id,
                 );
             }
-
-            if value == &PropertyValue::Null {
-                tensor.remove(prop_key);
-            } else {
-                tensor.set(prop_key, TensorValue::Scalar(value.to_scalar()));
-                changed_props.insert(prop_key.clone(), value.clone());
-            }
         }
-
-        tensor.set(
-            "_updated_at",
-            TensorValue::Scalar(ScalarValue::Int(current_timestamp_millis().cast_signed())),
-        );
-
-        #[cfg(neumann_verif)]
-        tensor_store::verif_hooks::yield_point("graph.edge.update.rmw");
-        self.store.put(key, tensor)?;
 
         // Index new values
         for (prop_key, prop_value) in &changed_props {
@@ -6519,7 +6530,15 @@ impl GraphEngine {
         }
 
         // Delete the edge itself
-        self.store.delete(&Self::edge_key(edge_id))?;
+        self.delete_edge_record(edge_id)?;
+        Ok(())
+    }
+
+    /// Remove an edge's record, excluding a concurrent `update_edge` of it.
+    fn delete_edge_record(&self, edge_id: u64) -> Result<()> {
+        let key = Self::edge_key(edge_id);
+        let _record_guard = self.adjacency_lock(&key);
+        self.store.delete(&key)?;
         Ok(())
     }
 
@@ -6604,7 +6623,7 @@ impl GraphEngine {
                     }
 
                     // Delete the edge record
-                    self.store.delete(&Self::edge_key(*edge_id))?;
+                    self.delete_edge_record(*edge_id)?;
                     Ok(())
                 })();
 
@@ -6641,7 +6660,7 @@ impl GraphEngine {
                         self.remove_edge_from_list(&Self::incoming_edges_key(other_node), edge_id)?;
                     }
                 }
-                self.store.delete(&Self::edge_key(edge_id)).ok();
+                self.delete_edge_record(edge_id).ok();
             }
         }
 
